@@ -205,10 +205,11 @@ func I(workPackage types.WorkPackage, j int, o types.ByteSequence, imports [][]t
 func C(item types.WorkItem, result types.WorkExecResult, gas types.Gas) types.WorkResult {
 	payloadHash := hash.Blake2bHash(item.Payload)
 	importCount := types.U16(len(item.ImportSegments))
-	extrinsicSize := types.U32(len(item.Extrinsic))
-	var zSum types.U16
+	// (14.8) x = |w_x| extrinsics, z = the sum of their lengths, e = w_e exported segments
+	extrinsicCount := types.U16(len(item.Extrinsic))
+	var zSum types.U32
 	for _, v := range item.Extrinsic {
-		zSum += types.U16(v.Len)
+		zSum += v.Len
 	}
 	return types.WorkResult{
 		ServiceID:     item.Service,
@@ -219,9 +220,9 @@ func C(item types.WorkItem, result types.WorkExecResult, gas types.Gas) types.Wo
 		RefineLoad: types.RefineLoad{
 			GasUsed:        gas,
 			Imports:        importCount,
-			ExtrinsicCount: item.ExportCount,
-			ExtrinsicSize:  extrinsicSize,
-			Exports:        zSum,
+			ExtrinsicCount: extrinsicCount,
+			ExtrinsicSize:  zSum,
+			Exports:        item.ExportCount,
 		},
 	}
 }
